@@ -92,7 +92,7 @@ def model(s: dict) -> dict:
             tris.append([s['mat'], [vert(s['vert'], s['links0']), vert('v1', [[0, 1.0]]), vert('v2', s['links2'])]])
         else:
             tris.append([f'filler/mat_{t}', [vert('v2', [[t, 1.0]]), vert('v0', [[0, 1.0]]), vert('v1', [[n - 1, 1.0]])]])
-    return {'bones': bones, 'frames': frames, 'tris': tris}
+    return {'bones': bones, 'frames': frames, 'tris': tris, 'bone_objects': s.get('bone_objects', 'shared')}
 
 
 def construct(mdl: dict) -> Mesh:
